@@ -55,6 +55,7 @@ Definition cmp_sql (o : cmpop) : str :=
   match o with CEq e => equality_sql e | CMatch m => matching_sql m | CJson j => jsonop_sql j | CRaw t => t end.
 
 Definition paren (s : str) : str := [40] ++ s ++ [41].
+Definition starts_minus (s : str) : bool := match s with c :: _ => c =? 45 | [] => false end.
 Definition paren_if (b : bool) (s : str) : str := if b then paren s else s.
 
 (* getattr(side, "operator", None) *)
@@ -146,11 +147,15 @@ Fixpoint render (c : ctx) (p : pz) (t : term) {struct t} : res (str * pz) :=
           else do (s, p1) <- render c p t'; Ok (alias_sql c s alias, p1)
       | None => do (s, p1) <- render c p t'; Ok (alias_sql c s alias, p1)
       end
-  | TNeg t' _ => do (s, p1) <- render c p t'; Ok ([45] ++ s, p1)
+  | TNeg t' _ =>
+      do (s, p1) <- render c p t';
+      let compound := match t' with TArith _ _ _ _ => true | _ => false end in
+      Ok ([45] ++ paren_if (compound || starts_minus s) s, p1)
   | TArith op l r alias =>
       do (sl, p1) <- render c p l;
       do (sr, p2) <- render c p1 r;
-      let s := paren_if (left_needs_parens op (op_of l)) sl ++ arith_sql op ++ paren_if (right_needs_parens op (op_of r)) sr in
+      let rp := right_needs_parens op (op_of r) || (arith_eqb op Sub && starts_minus sr) in
+      let s := paren_if (left_needs_parens op (op_of l)) sl ++ arith_sql op ++ paren_if rp sr in
       Ok (alias_if (with_alias c) c s alias, p2)
   | TBasic o l r alias =>
       do (sl, p1) <- render c p l;
